@@ -33,7 +33,7 @@ m = {
     "setup_cmd": "./check setup",
     "hooks": {
         "guard": "verif",
-        "enable": "no source hooks: checks instrument the current working tree of /repo through a go build -overlay generated at check time (tools: /verif/instrument); in-package harness files are added through the same overlay",
+        "enable": "no source hooks: checks instrument the current working tree of /repo through a go build -overlay generated at check time (tools: /verif/instrument); in-package harness files (C18) and one overlay-only seam (an extra file in p2p/transport/tcpreuse plus one substituted call in the overlay copy of its listener.go, so that the shared-TCP listener path runs on the simulated network; C02, C04) are added through the same overlay; instrumented copies of go-yamux, go-multistream, quic-go and webtransport-go are selected through a generated -modfile",
         "baseline_off_cmd": "cd /repo && go test -vet=off -count=1 -timeout 25m ./...",
         "source_commits": [],
         "add_only": True,
